@@ -37,6 +37,7 @@ def run_seed(seed_dir, props, tier="quick", check_demo=True):
         for prop in props:
             env = dict(os.environ)
             env['VF_REPO'] = tmp
+            env['VF_EVIDENCE_DIR'] = os.path.join(tmp, 'evidence')
             r = subprocess.run([os.path.join(common.VERIF, 'check'), prop, '--tier', tier], env=env, stdout=subprocess.PIPE, stderr=subprocess.STDOUT, timeout=7200)
             text = r.stdout.decode('utf-8', 'replace')
             first = [l.strip()[:260] for l in text.split('\n') if l.startswith('  mech=')][:2]
